@@ -1214,6 +1214,17 @@ def handle (line : String) : String :=
         let all := [c2, c15].filter (· != "")
         if all.isEmpty then "OK" else String.intercalate " ; " all
       | _ => if goRes == "BADSCRIPT" then "SKIP bad-script" else "SPEC C01:no-result(" ++ goRes ++ ")"
+    | ["xresn", _sc, _hx, _lim] =>
+      -- the same on a tree enlarged by extensions whose name and aliases are all in normal form: every clause is judged
+      match goRes.splitOn " " with
+      | [_sh, _pr, _parents, bits] =>
+        let b := bits.toList
+        if b.getD 0 'F' != 'T' then "SPEC C15:result-is-not-itself"
+        else if b.getD 1 'F' != 'T' then "SPEC C15:equalsany-not-reflexive-on-result"
+        else if b.getD 2 'F' != 'T' then "SPEC C15:lookup-of-result-type-is-not-the-result"
+        else if b.getD 3 'T' != 'T' then "SPEC C15:result-does-not-know-its-aliases"
+        else "OK"
+      | _ => if goRes == "BADSCRIPT" then "SKIP bad-script" else "SPEC C01:no-result(" ++ goRes ++ ")"
     | ["treeeq"] =>
       let m := String.intercalate " " (dumpTree Gen.builtin)
       if m == goRes then "OK" else s!"DIFF tree model={m}"
